@@ -230,6 +230,23 @@ func main() {
 	pp := callsTo(funcDecl(tableGo, "Table", "Put"))
 	addBool("table_put_deletes_existing", index(pp, "Delete") >= 0, "Table.Put calls t.Delete before re-indexing the hkey")
 	comp := funcDecl(compGo, "KVStore", "Compaction")
+	isOK := funcDecl(compGo, "KVStore", "isCompactionOK")
+	deadTables := false
+	if isOK != nil && len(isOK.Body.List) >= 3 {
+		// s := t.Stats(); if s.Inuse == 0 && s.Garbage > 0 { return true }; return float64(s.Garbage) >= float64(s.Allocated)*maxGarbageRatio
+		if ifs, ok := isOK.Body.List[1].(*ast.IfStmt); ok {
+			cond := strings.Join(strings.Fields(src(ifs.Cond)), " ")
+			body := ""
+			if len(ifs.Body.List) == 1 {
+				body = strings.Join(strings.Fields(src(ifs.Body.List[0])), " ")
+			}
+			last := strings.Join(strings.Fields(src(isOK.Body.List[len(isOK.Body.List)-1])), " ")
+			deadTables = cond == "s.Inuse == 0 && s.Garbage > 0" && body == "return true" && ifs.Else == nil &&
+				last == "return float64(s.Garbage) >= float64(s.Allocated)*maxGarbageRatio"
+		}
+	}
+	addBool("compaction_takes_tables_without_live_entries", deadTables,
+		"isCompactionOK answers true for a table with Inuse == 0 and Garbage > 0, and otherwise compares Garbage with Allocated*maxGarbageRatio")
 	addBool("compaction_skips_readwrite", strings.Contains(src(comp), "ReadWriteState"), "Compaction mentions table.ReadWriteState (skips the head table)")
 	sweepDeletes := false
 	if comp != nil {
